@@ -75,13 +75,20 @@ func (x *Exec) loadPure(st *State, a *Addr) Val {
 	}
 	v := x.unflatten(a.T, terms)
 	if x.collectTyping {
-		x.pendingTyping = append(x.pendingTyping, v)
-		x.pendingBound = append(x.pendingBound, x.refBound(st, a.Prefix+ls0suffix(ls)))
 		idx := ""
 		if len(a.Idx) > 0 {
 			idx = a.Idx[0]
 		}
+		x.pendingTyping = append(x.pendingTyping, v)
+		x.pendingBound = append(x.pendingBound, "")
 		x.pendingIdx = append(x.pendingIdx, idx)
+		// per-leaf allocation bounds
+		for i, l := range ls {
+			if !isRefLeaf(l) || strings.HasPrefix(l.sort, "(Array") || idx == "" {
+				continue
+			}
+			x.pendingLeaf = append(x.pendingLeaf, [3]string{terms[i], x.refBound(st, a.Prefix+l.suffix), idx})
+		}
 	}
 	return v
 }
@@ -96,9 +103,20 @@ func (x *Exec) assumeCollectedTyping(st *State) {
 			}
 		}
 		if ground && !strings.Contains(x.pendingIdx[i], "!q") {
-			x.assumeTypingBound(st, v, x.pendingBound[i], x.pendingIdx[i])
+			if x.pendingBound[i] == "" {
+				x.assumeTyping(st, v)
+			} else {
+				x.assumeTypingBound(st, v, x.pendingBound[i], x.pendingIdx[i])
+			}
 		}
 	}
+	for _, t := range x.pendingLeaf {
+		if strings.Contains(t[0], "!q") || strings.Contains(t[2], "!q") || t[1] == st.alloc {
+			continue
+		}
+		st.assume(implies(app("<=", t[2], t[1]), app("<=", t[0], t[1])))
+	}
+	x.pendingLeaf = nil
 	x.pendingTyping = nil
 	x.pendingBound = nil
 	x.pendingIdx = nil
@@ -731,6 +749,16 @@ func (e *Env) call(n ECall) Val {
 		}
 		// dynamic type of a heap object
 		return boolVal(eq(sel(x.typArr(e.st), v.S), x.typeId(t)))
+	case "string":
+		v := e.tr(n.Args[0])
+		if v.K != KSlice {
+			e.fail("string(): byte slice expected")
+		}
+		ms := "(Array Int (Array " + x.sorts.Idx() + " " + x.byteSort() + "))"
+		arr := x.heapArr(e.st, "mem_uint8", ms)
+		x.decls.Fun("gstr.of", []string{"(Array " + x.sorts.Idx() + " " + x.byteSort() + ")", x.sorts.Idx(), x.sorts.Idx()}, "Str")
+		x.decls.Fun("gstr.len", []string{"Str"}, x.sorts.Idx())
+		return Val{T: types.Typ[types.String], K: KScalar, S: app("gstr.of", sel(arr, v.Ref), v.Off, v.Len)}
 	case "isnan":
 		v := e.tr(n.Args[0])
 		pfx, sort := fltPfx(v.T)
